@@ -14,7 +14,8 @@ LEVEL = "exploration"
 RULE = ("Exhaustive enumeration of (catalogue entry x header shape x non-empty subset of inputs made header-only x "
         "filler table for the remaining inputs), each also after a header peek, with the sources emptied only after the view "
         "was first used, and (sort-backed entries) with petl.config.sort_buffersize = 1 and a counting pass before two "
-        "further passes. Oracle: no exception, and the zero-row value of the entry: the "
+        "further passes, and with 150-row fillers sorted through 75 chunk files; plus mergesort over 33 / 40 / 70 inputs of which "
+        "one, at every position, is header-only. Oracle: no exception, and the zero-row value of the entry: the "
         "reference model where one is attached (joins, set operations, cat/stack/annex, sorts, key-less aggregates), "
         "a literal where the header depends on data, otherwise 'same header as on a non-empty input of the same "
         "shape and no data rows'. Every case is non-trivial by construction (trivially small inputs are the point); "
